@@ -54,8 +54,8 @@ HISTORY = {
     "C16_1": "caught as built", "C16_2": "missed as built; rule C16-Q5 added", "C16_3": "missed as built; C16-Q4 extended (check=False)",
     "C18_1": "missed as built (value clause not claimed); necessary condition C18-L5 added",
     "C18_2": "missed as built; rule C18-L3 added", "C18_3": "missed as built; necessary condition C18-L4 added",
-    "C19_1": "refused (exit 2) as built and now: the change is in the generator's title-detection logic, which the check replicates and pins by digest; "
-             "deciding it would mean executing that logic on every docstring",
+    "C19_1": "refused (exit 2) as built (the title-detection logic was mirrored by a digest-pinned replica); caught after the replica was replaced by the evaluation of "
+             "find_title_and_description itself on every module docstring (rule C19-D9)",
     "C19_2": "missed as built; rules C19-D8 / C18-L6 added (literal {name} of a variable in scope)",
     "C19_3": "missed as built; rule C19-D8 added (registration admits every Symbol)",
     "C20_1": "caught as built", "C20_2": "refused as built (exit 2 from C03/C09: next_id no longer stores into _ids); rule I3 'process-wide counters' added, also run under C20",
@@ -96,7 +96,7 @@ HISTORY.update({
     "b3_C16_1": "refused as built (exit 2: anchors of the shape-bound Q1/Q3 gone); caught after Q1/Q3 were rewritten as whole-function evaluation",
     "b3_C16_2": "refused as built; caught after the rewrite (Expr.coeff modelled on the top-level sum)", "b3_C16_3": "refused as built; caught after the rewrite (scaled unknowns)",
     "b3_C18_1": "missed as built; rule C18-L7 added", "b3_C18_2": "missed as built; rule C18-L8 added", "b3_C18_3": "missed as built; rule C18-L9 added",
-    "b3_C19_1": "REFUSED (exit 2), as built and now: same change as batch-2 seed C19_1 (stricter title rule in parse.py)",
+    "b3_C19_1": "refused (exit 2) as built: same change as batch-2 seed C19_1 (stricter title rule in parse.py); caught by C19-D9 after the replica was replaced by evaluation",
     "b3_C19_2": "missed as built; C19-D8 extended (an indexed symbol is applied to its own index)", "b3_C19_3": "caught as built",
     "b3_C20_1": "missed by C20 as built (caught by nothing); C09-N1 who-may-construct and C20-R5 re-initialisation added",
     "b3_C20_2": "caught as built", "b3_C20_3": "caught as built",
